@@ -261,7 +261,7 @@ func (g *gen) busScript(idx int) error {
 				cs = append(cs, cand{bact{"call", i}, 25})
 			}
 			if s.ctx.Err() == nil {
-				cs = append(cs, cand{bact{"cancelSend", i}, 2})
+				cs = append(cs, cand{bact{"cancelSend", i}, 1})
 			}
 			s.mu.Unlock()
 		}
